@@ -318,7 +318,13 @@ func genCase(t *rapid.T) *Case {
 		c.Empties = rapid.SampledFrom([]int{0, 0, 0, 1, 3, 30, 3000, 30000}).Draw(t, "leadingEmpties")
 	}
 	w := c.Width
-	switch rapid.IntRange(0, 7).Draw(t, "nKind") {
+	switch rapid.IntRange(0, 8).Draw(t, "nKind") {
+	case 8:
+		// long and fast: a hand-over that goes wrong once in several
+		// thousand items (workers colliding in a source that is not
+		// safe for concurrent use) needs volume, not yields
+		c.N = rapid.IntRange(5000, 60000).Draw(t, "longN")
+		c.Yields = []int{0}
 	case 0:
 		c.N = 0
 	case 1:
@@ -370,6 +376,8 @@ func TestExactlyOnce(t *testing.T) {
 			nk = "n=1"
 		case c.N <= c.Width:
 			nk = "n<=width"
+		case c.N >= 5000:
+			nk = "n>=5000"
 		}
 		vkit.CaseN(tFan, vkit.Hash(*c), reps, c.N >= 2 && (c.Width >= 2 || c.Construct == "Buffer" || c.Construct == "Split-Map-Merge"), []string{"construct:" + c.Construct, nk, fmt.Sprintf("width:%d", c.Width)}, func() any { return *c })
 	})
